@@ -202,6 +202,10 @@ func (d *segmentationDescriptor) parseDescriptor(data []byte) error {
 		b, _ := buf.ReadByte()
 		return b
 	}
+	if buf.Len() < 9 {
+		// identifier, event id and cancel indicator are always present
+		return gots.ErrInvalidSCTE35Length
+	}
 	if binary.BigEndian.Uint32(buf.Next(4)) != segDescID {
 		return gots.ErrSCTE35InvalidDescriptorID
 	}
@@ -250,11 +254,18 @@ func (d *segmentationDescriptor) parseDescriptor(data []byte) error {
 			// Iterate over the whole MID len(segUpidLen) to get all `n` UPIDs
 			// segUpidLen is in bytes.
 			for segUpidLen != 0 {
+				if segUpidLen < 2 || buf.Len() < 2 {
+					// no room for the type and length bytes of another UPID
+					return gots.ErrInvalidSCTE35Length
+				}
 				UpidElem := upidSt{}
 				UpidElem.upidType = SegUPIDType(readByte())
 				segUpidLen -= 1
 				UpidElem.upidLen = int(readByte())
 				segUpidLen -= 1
+				if UpidElem.upidLen > segUpidLen || UpidElem.upidLen > buf.Len() {
+					return gots.ErrInvalidSCTE35Length
+				}
 				UpidElem.upid = buf.Next(UpidElem.upidLen)
 				segUpidLen -= UpidElem.upidLen
 				d.mid = append(d.mid, UpidElem)
